@@ -1367,6 +1367,23 @@ func (e *Engine) valueEq(a, b Value) smt.Term {
 		if x.S != nil && y.S != nil {
 			return c.Bool(*x.S == *y.S)
 		}
+		if st := e.eqSt; st != nil {
+			// strings built from bytes (string(b[i:j])): compare lengths and contents
+			xv, yv := e.stringView(x), e.stringView(y)
+			if xv.Len.IsConst() && yv.Len.IsConst() && xv.Len.Val <= 64 && len(xv.P.Alts) == 1 && len(yv.P.Alts) == 1 && xv.P.Alts[0].Obj != nil && yv.P.Alts[0].Obj != nil &&
+				xv.P.Alts[0].Obj.Name != "ostr" && yv.P.Alts[0].Obj.Name != "ostr" {
+				if xv.Len.Val != yv.Len.Val {
+					return c.False
+				}
+				r := c.True
+				for i := uint64(0); i < xv.Len.Val; i++ {
+					a := e.Load(st, e.indexAddrRaw(xv.P, c.BV(i, 64)), types.Typ[types.Uint8], "string==").(IntV).T
+					b := e.Load(st, e.indexAddrRaw(yv.P, c.BV(i, 64)), types.Typ[types.Uint8], "string==").(IntV).T
+					r = c.And(r, c.Eq(a, b))
+				}
+				return r
+			}
+		}
 		return c.Fresh("streq", 0)
 	case StructV:
 		y := b.(StructV)
